@@ -271,7 +271,29 @@ def c18(k, ctx):
                        "fingerprint = FNV-1a digest of the serialised results; equality of digests is taken as equality of behaviour on the family"]
 
 
-PIPELINES = {"C18": c18, "C03": c03, "C04": c04, "C05": c05, "C01": c01, "C10": c10, "C08": c08, "C11": c11, "C02": c02, "C09": c09, "C17": c17}
+def c15(k, ctx):
+    ctx.rule = ("one case = one call of interleave (u32 / f64 / GF2 elements), deinterleave, puncture, depuncture or rate on tagged inputs: every (C, R, direction) up to 6x6 "
+                "(8x8 thorough) + random shapes up to 40x40; every pattern up to length 5 (6) with a TRUE at every input length 0..3*len+2 (fitting and not fitting) + random patterns "
+                "up to length 12; non-trivial = distinct cases with C >= 2 and R >= 2, or with a pattern that removes at least one block, or with a length that does not fit")
+    ctx.tlc_mc("MC_Chain", "MC_Chain_thorough.cfg" if ctx.thorough else "MC_Chain.cfg")
+    ctx.tlc_mc("MC_Chain", "MC_Chain_neg.cfg", expect_violation=True)      # inverse stages applied in the wrong order
+    ctx.vh("gen", "i2s")
+    recs, rej = ctx.validate("Trace_C15")
+    ctx.require_events("Il", "Dl", "Pu", "De", "Ra")
+    for r in recs:
+        if r["e"] in ("Il", "Dl"):
+            n = len(r["x"])
+            if r["C"] >= 2 and n // r["C"] >= 2:
+                ctx.nontrivial_keys.add(k.key(r["e"], r["C"], n, r["back"], r.get("ty")))
+        elif r["e"] in ("Pu", "De") and (0 in r["pat"] or r.get("v") == "err"):
+            ctx.nontrivial_keys.add(k.key(r["e"], r["pat"], len(r["x"])))
+    ctx.extra["misfit_cases"] = sum(1 for r in recs if r.get("v") == "err")
+    ctx.exhaustive = True
+    ctx.samples = [k.sample_case(recs, 40), k.sample_case(recs, recs[-1]["i"] - 3)]
+    ctx.assumptions = ["TLC 1.8 + Json/IOUtils", "inputs are position tags (values 1..n), so every output index is observable"]
+
+
+PIPELINES = {"C15": c15, "C18": c18, "C03": c03, "C04": c04, "C05": c05, "C01": c01, "C10": c10, "C08": c08, "C11": c11, "C02": c02, "C09": c09, "C17": c17}
 NOT_YET = {}
 
 
